@@ -104,6 +104,13 @@ package parser
 
 //@ func (p *parser) parseExpression
 //@ requires pinv(p)
+// C06 (Pratt loop): an infix construct is entered only when its operator binds strictly tighter than
+// the context, and the loop stops at the first operator that does not (equal precedence stops: left
+// associativity)
+//@ assert climb: precedence < prec(p.curToken.Type) before parseInfixExpression#*
+//@ assert climbcall: precedence < prec(p.curToken.Type) before parseCallExpression#*
+//@ assert climbindex: precedence < prec(p.curToken.Type) before parseIndexExpression#*
+//@ ensures stop: result != nil ==> p.peekToken.Type == token.SEMICOLON || prec(p.peekToken.Type) <= precedence || !has(p.infixParseFns, p.peekToken.Type) || isnil(p.infixParseFns[p.peekToken.Type])
 //@ ensures inv: lexer.linv(p.Lexer) && lexer.lhtml(p.Lexer) && errsok(p) && M(p) <= old(M(p))
 //@ ensures flag: p.inForBlock == old(p.inForBlock)
 //@ ensures wf: result == nil || pay(result) != 0
@@ -216,6 +223,8 @@ package parser
 
 //@ func (p *parser) parsePrefixExpression
 //@ requires pinv(p)
+// C06: a prefix operator binds tighter than every binary operator
+//@ assert binds: callarg1 == PREFIX before parseExpression#1
 //@ requires cur: p.curToken.Type != token.EOF
 //@ ensures inv: lexer.linv(p.Lexer) && lexer.lhtml(p.Lexer) && errsok(p) && M(p) <= old(M(p))
 //@ ensures flag: p.inForBlock == old(p.inForBlock)
@@ -227,6 +236,10 @@ package parser
 
 //@ func (p *parser) parseInfixExpression
 //@ requires pinv(p)
+// C06: the right operand is parsed at the operator's own precedence (so an equal operator to the right
+// is left to the caller: left associative), and the node records this operator and the given left operand
+//@ assert binds: callarg1 == prec(old(p.curToken.Type)) before parseExpression#1
+//@ ensures node: result != nil ==> is(result, "*ast.InfixExpression") && unbox(result, "*ast.InfixExpression").Operator == old(p.curToken.Literal) && unbox(result, "*ast.InfixExpression").Left == left
 //@ requires cur: p.curToken.Type != token.EOF
 //@ requires left: left == nil || pay(left) != 0
 //@ requires leftorig: is(left, "*ast.Identifier") ==> unbox(left, "*ast.Identifier").OriginalCallee != nil
@@ -240,6 +253,8 @@ package parser
 
 //@ func (p *parser) parseGroupedExpression
 //@ requires pinv(p)
+// C06: parentheses reset the context: any operator may appear inside
+//@ assert resets: callarg1 == LOWEST before parseExpression#1
 //@ requires cur: p.curToken.Type != token.EOF
 //@ ensures inv: lexer.linv(p.Lexer) && lexer.lhtml(p.Lexer) && errsok(p) && M(p) <= old(M(p))
 //@ ensures flag: p.inForBlock == old(p.inForBlock)
@@ -413,3 +428,24 @@ package parser
 //@ trusted
 //@ ensures ok: err == nil ==> result != nil
 //@ assigns fresh
+
+// ---- C06: the precedence table ------------------------------------------------------------------
+// documented order: ! (PREFIX) > * / > + - > < <= > >= > == != ~= > && || > LOWEST; calls and indexing
+// bind tighter than any operator. prec is the documented table as a function of the token type.
+//@ spec prec(t token.Type) int = ite(t == token.ASTERISK || t == token.SLASH, PRODUCT,
+//@     ite(t == token.PLUS || t == token.MINUS, SUM,
+//@     ite(t == token.LT || t == token.LTEQ || t == token.GT || t == token.GTEQ, LESSGREATER,
+//@     ite(t == token.EQ || t == token.NOT_EQ || t == token.MATCHES, EQUALS,
+//@     ite(t == token.AND || t == token.OR, ANDOR,
+//@     ite(t == token.LPAREN, CALL, ite(t == token.LBRACKET, INDEX, LOWEST)))))))
+
+//@ func (p *parser) peekPrecedence
+//@ consttable precedences: token.EQ => EQUALS, token.NOT_EQ => EQUALS, token.MATCHES => EQUALS, token.AND => ANDOR, token.OR => ANDOR, token.LT => LESSGREATER, token.LTEQ => LESSGREATER, token.GT => LESSGREATER, token.GTEQ => LESSGREATER, token.PLUS => SUM, token.MINUS => SUM, token.SLASH => PRODUCT, token.ASTERISK => PRODUCT, token.LPAREN => CALL, token.LBRACKET => INDEX
+//@ ensures def: result == prec(p.peekToken.Type)
+//@ ensures order: INDEX > CALL && CALL > PREFIX && PREFIX > PRODUCT && PRODUCT > SUM && SUM > LESSGREATER && LESSGREATER > EQUALS && EQUALS > ANDOR && ANDOR > LOWEST && LOWEST > 0
+//@ assigns nothing
+
+//@ func (p *parser) curPrecedence
+//@ consttable precedences: token.EQ => EQUALS, token.NOT_EQ => EQUALS, token.MATCHES => EQUALS, token.AND => ANDOR, token.OR => ANDOR, token.LT => LESSGREATER, token.LTEQ => LESSGREATER, token.GT => LESSGREATER, token.GTEQ => LESSGREATER, token.PLUS => SUM, token.MINUS => SUM, token.SLASH => PRODUCT, token.ASTERISK => PRODUCT, token.LPAREN => CALL, token.LBRACKET => INDEX
+//@ ensures def: result == prec(p.curToken.Type)
+//@ assigns nothing
